@@ -154,7 +154,7 @@ def resolve_jobs(prop, tier):
     jobs.append(Job("k_lanes.n200", "k_lanes.c", {"NCMDS": 200}, unwind=60, timeout=1200, samples=100000, solver="cadical",
                     required_witness=["end-of-scenario", "high-index-full-match", "indices-in-different-groups"]))
     if tier == "thorough":
-        jobs.append(Job("k_lanes.n600", "k_lanes.c", {"NCMDS": 600}, unwind=160, timeout=1800, samples=100000, solver="kissat",
+        jobs.append(Job("k_lanes.n600", "k_lanes.c", {"NCMDS": 600}, unwind=160, timeout=5400, samples=100000, solver="kissat",
                         required_witness=["end-of-scenario", "high-index-full-match"]))
     for shape in RESOLVE_SHAPES_QUICK:
         jobs.append(shape_job(prop, shape, harness="r_resolve.c", extra={"G": 2, "G1_START": 2}, samples=200000))
